@@ -364,6 +364,39 @@ Jump1Games ==
                final |-> <<win>>]
     IN  { mk(L, o0, oc, w) : L \in 2..5, o0 \in {P1, P2, PR}, oc \in {P1, P2, PR}, w \in {1, 2, 3} }
 
+(* DupLabel: a player state that uses ONE action name on several transitions  *)
+(* (legal: the validation only asks for strings).  Only the clauses on the     *)
+(* conditioned transition lists (C03) and on outcomes (C06) are meaningful     *)
+(* here; a strategy, being a list of names, cannot tell the transitions apart. *)
+(*   1 chooser ; 2, 3 live (rewards 3, 1) ; 4 dead ; 5 lose ; 6 win            *)
+DupLabelGames ==
+    LET mk(o, row) ==
+          [n |-> 6, owner |-> <<o, PR, PR, PR, PR, PR>>, reward |-> <<0, 3, 1, 2, 0, 0>>,
+           tr |-> << row, <<Tr("", 1, 6)>>, <<Tr("", 1, 6)>>, <<Tr("", 1, 5)>>, <<Tr("", 1, 5)>>, <<Tr("", 1, 6)>> >>,
+           final |-> <<6>>]
+    IN  { mk(o, row) : o \in {P1, P2},
+            row \in { <<Tr("go", 0, 2), Tr("go", 0, 4)>>, <<Tr("go", 0, 4), Tr("go", 0, 2)>>,
+                      <<Tr("go", 0, 2), Tr("go", 0, 3)>>, <<Tr("go", 0, 3), Tr("go", 0, 2)>>,
+                      <<Tr("go", 0, 2), Tr("alt", 0, 3), Tr("go", 0, 4)>>,
+                      <<Tr("go", 0, 4), Tr("go", 0, 4), Tr("go", 0, 3)>> } }
+
+(* MinReachRank: a chooser whose actions tie in reachability; behind one of   *)
+(* them a player state answers differently for reachability (u: 1/2, reward   *)
+(* 10) and for reward (v: sure, reward 1), so that ranking the chooser's      *)
+(* actions by 'reward under reachability-minimising play' instead of by the   *)
+(* expected reward picks the other action.                                     *)
+(*   1 chooser: a -> 2, b -> 3 ; 2: u -> 4, v -> 5 ; 3 chance (reward rb, 1/2) *)
+(*   4 chance (reward 10, 1/2) ; 5 chance (reward 1, sure) ; 6 lose ; 7 win    *)
+MinReachRankGames ==
+    LET mk(o1, o2, rb, swap1, swap2) ==
+          [n |-> 7, owner |-> <<o1, o2, PR, PR, PR, PR, PR>>, reward |-> <<0, 0, rb, 10, 1, 0, 0>>,
+           tr |-> << IF swap1 THEN <<Tr("b", 0, 3), Tr("a", 0, 2)>> ELSE <<Tr("a", 0, 2), Tr("b", 0, 3)>>,
+                     IF swap2 THEN <<Tr("v", 0, 5), Tr("u", 0, 4)>> ELSE <<Tr("u", 0, 4), Tr("v", 0, 5)>>,
+                     <<Tr("", 1, 7), Tr("", 1, 6)>>, <<Tr("", 1, 7), Tr("", 1, 6)>>, <<Tr("", 1, 7)>>,
+                     <<Tr("", 1, 6)>>, <<Tr("", 1, 7)>> >>,
+           final |-> <<7>>]
+    IN  { mk(o1, o2, rb, s1, s2) : o1 \in {P1, P2}, o2 \in {P1, P2}, rb \in {5, 0, 30}, s1 \in BOOLEAN, s2 \in BOOLEAN }
+
 (* ZeroW: probabilistic transitions of weight 0 (never taken, but present):  *)
 (* into dead states, into the final state, next to live ones.                *)
 (*   1 chooser ; 2 chance with a zero-weight edge ; 3 live ; 4 dead ; 5 lose ; 6 win *)
@@ -529,12 +562,24 @@ RandRel(g) ==
          pi |-> [s \in 1..g.n |-> IF s = 1 THEN 1 ELSE p[s]],
          rho |-> [s \in 1..g.n |-> RandomElement(Permutations(1..Len(g.tr[s])))],
          alpha |-> RandomElement(Renamings)]
+\* states that become unreachable once Player 1 is restricted, in a chain that runs AGAINST the
+\* numbering (4 -> 3 -> 2): clearing them needs more than one pass in index order
+\*   1 chooser: good -> 5, bad -> 4 ; 4 (Player 2 / chance) -> 3 ; 3 -> 2 ; 2 chance (reward 3) -> win or lose
+BackChainGames ==
+    { [n |-> 7, owner |-> <<P1, PR, o3, o4, PR, PR, PR>>, reward |-> <<0, 3, r3, 1, 2, 0, 0>>,
+       tr |-> << <<Tr("good", 0, 5), Tr("bad", 0, 4)>>,
+                 <<Tr("", 1, 7), Tr("", 1, 6)>>,
+                 IF o3 = PR THEN <<Tr("", 1, 2)>> ELSE <<Tr("x", 0, 2)>>,
+                 IF o4 = PR THEN <<Tr("", 1, 3)>> ELSE <<Tr("y", 0, 3)>>,
+                 <<Tr("", 1, 7)>>, <<Tr("", 1, 6)>>, <<Tr("", 1, 7)>> >>,
+       final |-> <<7>>] : o3 \in {P2, PR}, o4 \in {P2, PR}, r3 \in {0, 4} }
 \* reward ties at values that round up at six decimals
 TieUp == {g \in TieGames : g.tr[2][1].t = 4}
 PermBase(i) ==
     IF i % 9 = 4 THEN RandomElement(TinySlow)
     ELSE IF i % 9 = 7 THEN RandomElement(TinyChains)
     ELSE IF i % 18 = 5 THEN RandomElement(SlowRewGames)
+    ELSE IF i % 18 = 11 THEN RandomElement(BackChainGames)
     ELSE IF i % 18 = 14 THEN RandomElement(ZeroWGames)
     ELSE IF i % 9 = 8 THEN RandomElement(IF i % 2 = 0 THEN TieUp ELSE TieGames)
     ELSE IF i % 3 = 0 THEN RandomElement(DeadGames)
